@@ -238,8 +238,13 @@ class CallMixin:
                 st.env[p.arg] = kwargs.pop(p.arg)
             elif d is not None:
                 dfr = Frame(None, self.prog.modules[fi.module], None, None, fr.depth + 1)
-                st.env[p.arg] = self.eval(d, State(), dfr)
+                dv = self.eval(d, State(), dfr)
                 fr.n_unresolved += dfr.n_unresolved
+                if entry:
+                    # entry point: the caller may pass anything the annotation allows, or leave the default
+                    pv = self.param_av(fi, p)
+                    dv = replace(join(pv, replace(dv, const=NOCONST)), alias=pv.alias | dv.alias, deps=pv.deps | dv.deps)
+                st.env[p.arg] = dv
             elif entry:
                 st.env[p.arg] = self.param_av(fi, p)
             else:
@@ -491,6 +496,8 @@ class CallMixin:
 
     def write_subscript(self, base: AV, idx: AV, val: AV, node, st, frame, wkind="subscript"):
         locs = frozenset(base.alias)
+        if not self.field_table_ready:
+            self.record_field_elem(locs, val, "add", frame, key=idx)
         val2 = val.with_deps(st.ctrl | idx.deps)
         self.ev(frame, st, "write", node, recv=base, args=(idx,), value=val2, target=locs, wkind=wkind)
         if locs:
@@ -575,9 +582,13 @@ class CallMixin:
                 and isinstance(test.comparators[0], ast.Constant) and test.comparators[0].value is None:
             var = test.left.id
             cur = st.env.get(var)
-            if cur is None or cur.types is None:
+            if cur is None:
                 return
             isnone = isinstance(test.ops[0], ast.Is)
+            if cur.types is None:
+                if isinstance(test.ops[0], (ast.Is, ast.IsNot)) and isnone == polarity:
+                    st.env[var] = AV(types=frozenset({"None"}), const=None, deps=cur.deps)
+                return
             if isinstance(test.ops[0], (ast.Is, ast.IsNot)):
                 if isnone == polarity:
                     st.env[var] = replace(cur, types=cur.types & {"None"}, const=None if "None" in cur.types else cur.const)
@@ -633,6 +644,8 @@ class CallMixin:
 
     def mutate(self, recv: AV, added, how, n, st, frame, name):
         locs = frozenset(recv.alias)
+        if added is not None and how in ("add", "update") and not self.field_table_ready:
+            self.record_field_elem(locs, added, how, frame)
         if added is not None:
             added = added.with_deps(st.ctrl)
         self.ev(frame, st, "write", n, recv=recv, value=added, target=locs, wkind="mutate:" + name)
